@@ -13,3 +13,13 @@ package main
 //@   nomod
 //@ func buildSuggestions
 //@   nomod
+
+// ---- C10: everything after the first "--" is handed to the tasks, verbatim and in order
+//@ func taskArgs
+//@   requires c != nil
+//@   nomod
+//@   ensures #C10.no-dash (forall i int :: 0 <= i && i < len(argsSlice(ctxArgs(c))) ==> argsSlice(ctxArgs(c))[i] != "--") ==> len(result) == 0
+//@   ensures #C10.after-first-dash forall d int :: 0 <= d && d < len(argsSlice(ctxArgs(c))) && argsSlice(ctxArgs(c))[d] == "--" && (forall i int :: 0 <= i && i < d ==> argsSlice(ctxArgs(c))[i] != "--") ==> len(result) == len(argsSlice(ctxArgs(c))) - d - 1 && (forall j int :: 0 <= j && j < len(result) ==> result[j] == argsSlice(ctxArgs(c))[d + 1 + j])
+//@   loop 1 "range c.Args().Slice()"
+//@     invariant #same c == c0 && dash == -1
+//@     invariant #C10.none-so-far forall i int :: 0 <= i && i <= rangeindex ==> argsSlice(ctxArgs(c))[i] != "--"
